@@ -8,6 +8,12 @@ any nesting — structural induction, no bound; every XMILE operator table that 
 (`precAgree`, decidable) ; every generator configuration satisfying the decidable `good`.
 The configuration (operator / builtin templates, identifier rendering, unknown-builtin behaviour) is
 regenerated from /repo on every run (`Bptk.Gen.C03`), where `good cfg xmilePrec` is decided by the kernel.
+
+Wave 2: the Python reading of the emitted text is THE reading (`gen_parse_unique`, `gen_parse_exec`, from A1
+`parses_unique` / `parse_sound`); the XMILE reading of a token sequence is unique (`reading_unique`: relation
+`XExpr`, determinism `xdetE`, round trip `xwl_reads` under the decidable-by-cases `Unamb`); the token sequence
+determines the emitted text (`flat_gen`, hence `validate_of_flat`); signed literals (`nnum`) are level-7
+operands; the delay/smooth helper equals the cascade on the grid (`smth_eq_cascade`, witness for raw keys).
 -/
 namespace Bptk.C03
 open Bptk.Py
@@ -94,6 +100,7 @@ def vocabOK (c : Cfg) : Bool := vocabulary.all fun (f, n) => (findFn c f n).isSo
 
 def good (c : Cfg) (P : XPrec) : Bool :=
   opOK c P && fnsOK c && notOK c && identOK c && specOK c && vocabOK c && c.unknownBuiltinRaises
+    && c.helperKeysNormalise
 
 /-! ### Helper lemmas -/
 
@@ -1177,6 +1184,88 @@ theorem validate_of_flat (c : Cfg) (P : XPrec) (hP : precAgree P = true) (hO : o
 #print axioms flat_gen
 #print axioms validate_of_flat
 
+/-! ### The delay / smooth helper equals its definition on the time grid -/
+
+/-- facts about the grid (labels `label 0 … label N`) that hold for `grid_time` whatever the helper does
+with it: labels are fixed points, `t - dt` from a label snaps to the previous label, only the first
+label passes the start test -/
+structure HAdm {T : Type} (ht : HTime T) (label : Nat → T) (N : Nat) : Prop where
+  gnorm_label : ∀ k, k ≤ N → ht.gnorm (label k) = label k
+  gnorm_prev : ∀ k, k + 1 ≤ N → ht.gnorm (ht.prev (label (k + 1))) = label k
+  start0 : ht.isStart (label 0) = true
+  startS : ∀ k, k + 1 ≤ N → ht.isStart (label (k + 1)) = false
+
+theorem smthH_congr {T α : Type} (nrm : T → T) (ht : HTime T) (A : HArith α) (inp init : T → α)
+    (fuel y : Nat) (a b : T) (h : nrm a = nrm b) :
+    smthH nrm ht A inp init fuel y a = smthH nrm ht A inp init fuel y b := by
+  cases fuel with
+  | zero => simp [smthH]
+  | succ f => simp only [smthH, h]
+
+/-- **Helper = cascade.** When `mem` normalises its time argument, the helper's recursion on `t - dt`
+returns, at every grid point and for every stage, exactly the cascade value — in any arithmetic. -/
+theorem smth_eq_cascade {T α : Type} (ht : HTime T) (A : HArith α) (inp init : T → α) (label : Nat → T)
+    (N : Nat) (hA : HAdm ht label N) (k : Nat) (hk : k ≤ N) (y fuel : Nat) (hf : k < fuel) :
+    smthH ht.gnorm ht A inp init fuel y (label k)
+      = some (cascade A (fun j => inp (label j)) (init (label 0)) k y) := by
+  induction k generalizing y fuel with
+  | zero =>
+    cases fuel with
+    | zero => omega
+    | succ f => simp [smthH, hA.gnorm_label 0 hk, hA.start0, cascade]
+  | succ k ih =>
+    cases fuel with
+    | zero => omega
+    | succ f =>
+      have hk' : k ≤ N := by omega
+      have hp := hA.gnorm_prev k hk
+      have hl := hA.gnorm_label k hk'
+      have e1 : ∀ y', smthH ht.gnorm ht A inp init f y' (ht.prev (label (k + 1)))
+          = some (cascade A (fun j => inp (label j)) (init (label 0)) k y') := by
+        intro y'
+        rw [smthH_congr ht.gnorm ht A inp init f y' _ (label k) (by rw [hp, hl])]
+        exact ih hk' y' f (by omega)
+      have e2 : ∀ y', smthH ht.gnorm ht A inp init f y' (label k)
+          = some (cascade A (fun j => inp (label j)) (init (label 0)) k y') :=
+        fun y' => ih hk' y' f (by omega)
+      cases y with
+      | zero => simp [smthH, hA.gnorm_label (k + 1) hk, hA.startS k hk, hp, e1, e2, cascade]
+      | succ y' => simp [smthH, hA.gnorm_label (k + 1) hk, hA.startS k hk, hp, e1, e2, cascade]
+
+/-! #### Negation witness: raw float keys, dt = 0.1 -/
+
+def hwLabel (k : Nat) : Float := [0.0, 0.1, 0.2, 0.3, 0.4].getD k 0.4
+
+/-- nearest grid point (what `grid_time` returns for dt = 0.1 on this range) -/
+def hwGnorm (t : Float) : Float :=
+  if t < 0.05 then 0.0 else if t < 0.15 then 0.1 else if t < 0.25 then 0.2 else if t < 0.35 then 0.3 else 0.4
+
+def hwTime : HTime Float := { prev := fun t => t - 0.1, gnorm := hwGnorm, isStart := fun t => t <= 0.0 }
+
+/-- counting arithmetic: every stage adds 1 per step, so the value is the number of steps taken -/
+def hwArith : HArith Int := { add := fun a b => a + b, sub := fun _ _ => 1, mulDt := id, divTau := id }
+
+theorem hw_adm : HAdm hwTime hwLabel 4 := by
+  refine ⟨?_, ?_, by decide +kernel, ?_⟩
+  · intro k hk
+    have : k = 0 ∨ k = 1 ∨ k = 2 ∨ k = 3 ∨ k = 4 := by omega
+    rcases this with rfl | rfl | rfl | rfl | rfl <;> decide +kernel
+  · intro k hk
+    have : k = 0 ∨ k = 1 ∨ k = 2 ∨ k = 3 := by omega
+    rcases this with rfl | rfl | rfl | rfl <;> decide +kernel
+  · intro k hk
+    have : k = 0 ∨ k = 1 ∨ k = 2 ∨ k = 3 := by omega
+    rcases this with rfl | rfl | rfl | rfl <;> decide +kernel
+
+/-- on doubles, `0.4 - 0.1 - 0.1 - 0.1 - 0.1` is still above the start time: with raw keys the helper
+takes five steps to t = 0.4, the cascade four -/
+theorem helper_drift_witness :
+    smthH id hwTime hwArith (fun _ => 0) (fun _ => 0) 40 0 (hwLabel 4) = some 5 ∧
+    cascade hwArith (fun _ => 0) 0 4 0 = 4 := by decide +kernel
+
+#print axioms smth_eq_cascade
+#print axioms helper_drift_witness
+
 /-! ### Values: carrier-generic reference semantics of an equation tree -/
 
 variable {α : Type}
@@ -1501,7 +1590,10 @@ theorem sanitize_collisions :
 (5) spellings of a name that differ in case, blanks/underscores, quoting give the same identifier;
 (6) the per-program text comparison is implied by the token comparison: an IR that kept the token
     sequence (IFs in sentence positions) emits the text of the reading;
-(7) a token sequence has at most one well-levelled XMILE reading. -/
+(7) a token sequence has at most one well-levelled XMILE reading;
+(8) the delay/smooth helper (DELAY1/3/N, SMTH3/N), run the way the generated class handles time keys,
+    returns at every grid point and stage the cascade of first-order stocks advanced once per
+    interval — for every time representation admitting `grid_time`, every arithmetic, every horizon. -/
 def C03_full (c : Cfg) (P : XPrec) : Prop :=
   (∀ (x : X) (init : Bool), XWL P x = true → known c x = true →
      Parses (gen c init x) (trans c P init x) ∧
@@ -1521,14 +1613,18 @@ def C03_full (c : Cfg) (P : XPrec) : Prop :=
   (∀ x : X, known c x = false → compile c x = none) ∧
   (∀ a b : List Nat, plain a → plain b → canonN a = canonN b → sanL a = sanL b) ∧
   (∀ (ts : List XTok) (ir x : X), validateFlat P ts ir = some x → validate c P ts ir = some x) ∧
-  (∀ x y : X, XWL P x = true → XWL P y = true → flat x = flat y → canon x = canon y)
+  (∀ x y : X, XWL P x = true → XWL P y = true → flat x = flat y → canon x = canon y) ∧
+  (∀ (T α : Type) (ht : HTime T) (A : HArith α) (inp init : T → α) (label : Nat → T) (N : Nat),
+     HAdm ht label N → ∀ k, k ≤ N → ∀ y fuel, k < fuel →
+       smthH (ht.norm c) ht A inp init fuel y (label k)
+         = some (cascade A (fun j => inp (label j)) (init (label 0)) k y))
 
 theorem C03_full_of_good (c : Cfg) (P : XPrec) (hP : precAgree P = true) (hU : Unamb P)
     (h : good c P = true) (hS : shapesOK c = true) : C03_full c P := by
   unfold good at h
   simp only [Bool.and_eq_true] at h
-  obtain ⟨⟨⟨⟨⟨⟨hO, hF⟩, hN⟩, _hI⟩, hSp⟩, hV⟩, hU'⟩ := h
-  refine ⟨?_, ?_, ⟨?_, hV⟩, ?_, sanitize_equiv, ?_, ?_⟩
+  obtain ⟨⟨⟨⟨⟨⟨⟨hO, hF⟩, hN⟩, _hI⟩, hSp⟩, hV⟩, hU'⟩, hH⟩ := h
+  refine ⟨?_, ?_, ⟨?_, hV⟩, ?_, sanitize_equiv, ?_, ?_, ?_⟩
   · intro x init hx hk
     exact ⟨prec_agree c P hP hO hF hN x init hx hk, gen_parse_unique c P hP hO hF hN x init hx hk,
       gen_parse_exec c P hP hO hF hN x init hx hk, fun α C => eval_trans c P hS C x init⟩
@@ -1555,6 +1651,10 @@ theorem C03_full_of_good (c : Cfg) (P : XPrec) (hP : precAgree P = true) (hU : U
     exact validate_of_flat c P hP hO ts ir x hv
   · intro x y hx hy hf
     exact reading_unique P hU x y hx hy hf
+  · intro T α ht A inp init label N hA k hk y fuel hf
+    have : ht.norm c = ht.gnorm := by simp [HTime.norm, hH]
+    rw [this]
+    exact smth_eq_cascade ht A inp init label N hA k hk y fuel hf
 
 /-- What holds whatever the builtin templates look like: values always follow the tree (given the
 three structural shapes), and a validated program keeps its token sequence. -/
@@ -1571,6 +1671,16 @@ theorem C03_witness_unknown (c : Cfg) (P : XPrec) (h : c.unknownBuiltinRaises = 
   intro hfull
   have := hfull.2.2.2.1 (.call "foo" [.id "a"]) (by simp [known, hf])
   simp [compile, h] at this
+
+/-- helpers keyed on raw `t - dt` floats (the pinned tree): DELAY1 with dt = 0.1 takes five steps to
+t = 0.4 — the property fails -/
+theorem C03_witness_helper_keys (c : Cfg) (P : XPrec) (h : c.helperKeysNormalise = false) : ¬ C03_full c P := by
+  intro hfull
+  have h8 := hfull.2.2.2.2.2.2.2 Float Int hwTime hwArith (fun _ => 0) (fun _ => 0) hwLabel 4 hw_adm 4
+    (by decide) 0 40 (by decide)
+  have hn : hwTime.norm c = id := by simp [HTime.norm, h]
+  rw [hn, helper_drift_witness.1, helper_drift_witness.2] at h8
+  simp at h8
 
 theorem xmile_prec_agrees : precAgree xmilePrec = true := by decide
 
@@ -1634,6 +1744,7 @@ example :
 #print axioms xwl_reads
 #print axioms C03_partial
 #print axioms C03_witness_unknown
+#print axioms C03_witness_helper_keys
 #print axioms C03_witness_bare_sqrt
 #print axioms xmile_prec_agrees
 #print axioms eval_trans
